@@ -1,0 +1,145 @@
+//go:build verif
+
+package route
+
+import (
+	"bytes"
+	"math"
+	"math/big"
+	"net/url"
+	"sort"
+
+	"github.com/gobwas/glob"
+)
+
+// Verification hooks (build tag verif): canonical dumps of routing tables and thin exported wrappers around
+// unexported code, so that the correspondence harness in /verif can run the real implementation in-process
+// and compare it with the Lean model. No behaviour is changed.
+
+// VerifRat renders a float64 as an exact rational "num/den" ("nan", "inf", "-inf" for non-finite values).
+func VerifRat(f float64) string {
+	switch {
+	case math.IsNaN(f):
+		return "nan"
+	case math.IsInf(f, 1):
+		return "inf"
+	case math.IsInf(f, -1):
+		return "-inf"
+	}
+	r := new(big.Rat)
+	r.SetFloat64(f)
+	return r.Num().String() + "/" + r.Denom().String()
+}
+
+type VerifTarget struct {
+	Service     string     `json:"service"`
+	Tags        []string   `json:"tags"`
+	Opts        [][]string `json:"opts"` // sorted by key
+	URL         string     `json:"url"`
+	FixedWeight string     `json:"fixed"`
+	Weight      string     `json:"weight"`
+	// derived fields
+	Strip        string `json:"strip,omitempty"`
+	Prepend      string `json:"prepend,omitempty"`
+	Host         string `json:"hostopt,omitempty"`
+	RedirectCode int    `json:"redirect,omitempty"`
+	AuthScheme   string `json:"auth,omitempty"`
+	ProxyProto   bool   `json:"pxyproto,omitempty"`
+	TLSSkip      bool   `json:"tlsskipverify,omitempty"`
+}
+
+type VerifRoute struct {
+	Host    string        `json:"host"`
+	Path    string        `json:"path"`
+	Targets []VerifTarget `json:"targets"`
+	// Ring holds, per slot of wTargets, the index of the target in Targets (-1 if the slot holds a target
+	// that is not in Targets, -2 for a nil slot).
+	Ring []int `json:"ring,omitempty"`
+}
+
+type VerifHost struct {
+	Host   string       `json:"host"`
+	Routes []VerifRoute `json:"routes"`
+}
+
+func verifTarget(t *Target) VerifTarget {
+	vt := VerifTarget{
+		Service: t.Service, Tags: append([]string{}, t.Tags...), URL: t.URL.String(),
+		FixedWeight: VerifRat(t.FixedWeight), Weight: VerifRat(t.Weight),
+		Strip: t.StripPath, Prepend: t.PrependPath, Host: t.Host, RedirectCode: t.RedirectCode,
+		AuthScheme: t.AuthScheme, ProxyProto: t.ProxyProto, TLSSkip: t.TLSSkipVerify,
+	}
+	keys := make([]string, 0, len(t.Opts))
+	for k := range t.Opts {
+		keys = append(keys, k)
+	}
+	sort.Strings(keys)
+	vt.Opts = [][]string{}
+	for _, k := range keys {
+		vt.Opts = append(vt.Opts, []string{k, t.Opts[k]})
+	}
+	return vt
+}
+
+// VerifDump returns the table with hosts sorted ascending, routes in table order, targets in order.
+func VerifDump(t Table, withRing bool) []VerifHost {
+	hosts := make([]string, 0, len(t))
+	for h := range t {
+		hosts = append(hosts, h)
+	}
+	sort.Strings(hosts)
+	out := []VerifHost{}
+	for _, h := range hosts {
+		vh := VerifHost{Host: h, Routes: []VerifRoute{}}
+		for _, r := range t[h] {
+			vr := VerifRoute{Host: r.Host, Path: r.Path, Targets: []VerifTarget{}}
+			idx := map[*Target]int{}
+			for i, tg := range r.Targets {
+				idx[tg] = i
+				vr.Targets = append(vr.Targets, verifTarget(tg))
+			}
+			if withRing {
+				vr.Ring = []int{}
+				for _, tg := range r.wTargets {
+					switch {
+					case tg == nil:
+						vr.Ring = append(vr.Ring, -2)
+					default:
+						if i, ok := idx[tg]; ok {
+							vr.Ring = append(vr.Ring, i)
+						} else {
+							vr.Ring = append(vr.Ring, -1)
+						}
+					}
+				}
+			}
+			vh.Routes = append(vh.Routes, vr)
+		}
+		out = append(out, vh)
+	}
+	return out
+}
+
+// VerifNormURL is url.Parse followed by String (ok=false on a parse error): the model's normURL oracle.
+func VerifNormURL(s string) (string, bool) {
+	u, err := url.Parse(s)
+	if err != nil {
+		return "", false
+	}
+	return u.String(), true
+}
+
+// VerifGlobOK reports whether glob.Compile accepts the pattern: the model's globOK oracle.
+func VerifGlobOK(s string) bool {
+	_, err := glob.Compile(s)
+	return err == nil
+}
+
+// VerifNewTable is NewTable on a string.
+func VerifNewTable(s string) (Table, error) { return NewTable(bytes.NewBufferString(s)) }
+
+// VerifHostpath exposes hostpath.
+func VerifHostpath(p string) (string, string) { return hostpath(p) }
+
+// VerifParseLine runs the command parsers on one (already trimmed) line exactly as Parse dispatches.
+func VerifParse(s string) ([]*RouteDef, error) { return Parse(bytes.NewBufferString(s)) }
